@@ -686,6 +686,14 @@ fn do_hl(c: &mut Ctx, h: &Hdr, ops: &[HOp]) {
                     let size_panic = r == "p" && (pm.contains("too long compression") || pm.contains("overflow")) && objs.len() >= 300;
                     if size_panic { o.count("hl-size-limit-panic"); }
                     o.check(r != "eT" && (r != "p" || size_panic), cls, &id, || format!("call {}: write_snap({}) after tick {} returned {} {}", i, t, last_tick, r, pm));
+                    // the builder may refuse a snapshot only for what is in it: a repeated (type, id) key or the size limits
+                    if r.starts_with("eBDuplicateKey") {
+                        let mut keys: Vec<String> = items_of(objs).iter().map(|it| format!("{:?}/{}", it.0, it.1)).collect();
+                        let n = keys.len();
+                        keys.sort();
+                        keys.dedup();
+                        o.check(keys.len() < n, cls, &id, || format!("call {}: write_snap({}) of {} objects with distinct keys returned {}", i, t, n, r));
+                    }
                 }
                 if r == "o" {
                     last_tick = *t as i64;
